@@ -7,8 +7,11 @@ NoPending == [new |-> FALSE, dirty |-> FALSE, deleted |-> FALSE]
 CliCmds == {"cli_query", "cli_query_sigs", "cli_query_strict_json", "cli_dist_usedb", "cli_siginfo_db", "cli_siginfo_db_ids",
             "cli_create_dbparams", "cli_tree", "cli_query_missing_file", "cli_dist_bad_params", "cli_query_foreign_sigs"}
 FailingCli == {"cli_query_missing_file", "cli_dist_bad_params", "cli_query_foreign_sigs"}
+\* "lib_other_rw_reader": some other code in the same process opens the same genome file with a read-write session maker
+\* (file_sessionmaker(path, readonly=False)), only reads through it and closes it; it must not change what the DEFAULT
+\* session does afterwards
 LibCmds == {"lib_load", "lib_edit", "lib_add", "lib_delete", "lib_flush", "lib_commit", "lib_begin_block", "lib_rollback",
-            "lib_query", "lib_close", "lib_read_sigs"}
+            "lib_query", "lib_close", "lib_read_sigs", "lib_other_rw_reader", "lib_other_ro_reader"}
 Cmds == CliCmds \cup LibCmds
 
 \* pending new/dirty/deleted sets a READ-ONLY session may show after command c, given those before it:
